@@ -1,4 +1,5 @@
 import Hdl21Model.Drv.C03
+import Hdl21Model.Drv.C14
 open Lean
 
 /-- Line protocol: one JSON object per input line `{"prop": "C03", "op": ..., ...}`,
@@ -9,6 +10,7 @@ def dispatch (j : Json) : Except String Json := do
   let op ← Hdl21.J.getStr j "op"
   match prop with
   | "C03" => Hdl21.Drv.C03.handle op j
+  | "C14" => Hdl21.Drv.C14.handle op j
   | _ => .error s!"unknown prop {prop}"
 
 partial def loop (hin hout : IO.FS.Stream) : IO Unit := do
